@@ -265,7 +265,7 @@ def model_lines(case):
         elif n[0] == 'R':
             toks += ['R', str(n[2]), str(n[3])] + [str(j) for j in n[4]]
         else:
-            toks += ['X', n[2], n[3], str(len(n[4]))] + [str(j) for j in n[4]]
+            toks += ['X', 'unk' if n[5] == 'unk' else n[2], n[3], str(len(n[4]))] + [str(j) for j in n[4]]
     pert = case.get('pert')
     if pert:
         toks += ['P', str(pert[0]), pert[2]]
